@@ -254,7 +254,7 @@ func (fe *FE) components(t types.Type) []comp {
 		return []comp{{"", s}}
 	}
 	if isSliceType(t) {
-		return []comp{{"#arr", SInt}, {"#off", SInt}, {"#len", SInt}, {"#cap", SInt}}
+		return []comp{{".arr", SInt}, {".off", SInt}, {".len", SInt}, {".cap", SInt}}
 	}
 	return nil
 }
